@@ -7,6 +7,7 @@
 # Prints the check output; exit status 0 iff every listed check reported a VIOLATION (= mutant caught).
 set -u
 M=${VMUT_DIR:-/tmp/vmut}
+SRC=${VERIF_SRC:-/verif}   # a snapshot of /verif may be given so that concurrent edits in /verif do not disturb a long run
 if [ "${1:-}" = "--clean" ]; then git -C /repo worktree remove --force $M/repo 2>/dev/null; rm -rf $M; exit 0; fi
 PATCH=$1; shift
 mkdir -p $M
@@ -16,7 +17,7 @@ case "$PATCH" in
   -R:*) c=${PATCH#-R:}; git -C /repo diff $c $c~1 | git -C $M/repo apply || { echo "patch failed"; exit 2; } ;;
   *) git -C $M/repo apply "$PATCH" || { echo "patch failed"; exit 2; } ;;
 esac
-rsync -a --exclude harness/target --exclude .git --exclude replays --exclude evidence /verif/ $M/verif/
+rsync -a --exclude harness/target --exclude .git --exclude replays --exclude evidence $SRC/ $M/verif/
 sed -i "s|/repo/|$M/repo/|g" $M/verif/harness/Cargo.toml
 cp /repo/Cargo.lock $M/verif/harness/Cargo.lock
 caught=0; total=0
